@@ -114,10 +114,11 @@ def rand_sympl_cov(rng, n):
         sf.hbar = old
 
 
-def gen_op(rng, n, backend, allow_meas=True):
-    kinds = ["hbar", "hbar", "free1", "free1", "free2", "prep", "chan"]
+def gen_op(rng, n, backend, first=False):
+    # preparations mostly at the start of the circuit (a later one wipes out what was built on that mode)
+    kinds = ["hbar", "hbar", "free1", "free1", "free2", "chan"] + (["prep", "prep", "prep"] if first else (["prep"] if rng.random() < 0.25 else []))
     if backend == "fock":
-        kinds += ["fockonly"]
+        kinds += ["fockonly", "hbar"]
     k = rng.choice(kinds)
     if k == "free2" and n < 2:
         k = "free1"
@@ -126,7 +127,7 @@ def gen_op(rng, n, backend, allow_meas=True):
         name = rng.choice(["Xgate", "Zgate"] + (["Vgate", "Vgate"] if backend == "fock" else []))
         base = rng.choice([0.0, 1.0, -0.5]) if rng.random() < 0.2 else _r3(rng.uniform(-1.2, 1.2))
         if name == "Vgate":
-            base = _r3(base * 0.15)
+            base = rng.choice([-1, 1]) * _r3(rng.uniform(0.04, 0.2)) if rng.random() < 0.9 else 0.0
         return {"op": name, "p": [base], "m": [rng.randrange(n)], "dg": dg}
     if k == "free1":
         name = rng.choice(sorted(FREE_1))
@@ -155,9 +156,9 @@ def gen_op(rng, n, backend, allow_meas=True):
 def gen_spec(rng, backend=None, max_n=3):
     backend = backend or rng.choice(["gaussian", "gaussian", "bosonic", "fock"])
     if backend == "fock":
-        n = rng.randint(1, 2)
+        n = rng.choice([1, 2, 2])
     elif backend == "bosonic":
-        n = rng.randint(1, 2)
+        n = rng.choice([1, 2, 2])
     else:
         n = rng.randint(1, max_n)
     opsl = []
@@ -178,8 +179,8 @@ def gen_spec(rng, backend=None, max_n=3):
             opsl.append({"op": "GKP", "state": [rng.choice([0.0, HALFPI, 0.6]), rng.choice([0.0, 0.4])], "eps": rng.choice([0.35, 0.5]), "m": [m], "dg": False})
         else:
             opsl.append({"op": "Fock", "p": [1], "m": [m], "dg": False})
-    for _ in range(rng.randint(1, 6)):
-        opsl.append(gen_op(rng, n, backend))
+    for j in range(rng.randint(1, 6)):
+        opsl.append(gen_op(rng, n, backend, first=(j == 0)))
     if backend == "bosonic" and rng.random() < 0.6:
         opsl.append({"op": "MSgate", "p": [_r3(rng.uniform(0.1, 0.6)), _r3(rng.uniform(-1, 1)), _r3(rng.uniform(0.8, 1.5)), _r3(rng.uniform(0.7, 1.0))],
                      "avg": rng.random() < 0.35, "m": [rng.randrange(n)], "dg": False})
@@ -191,6 +192,10 @@ def gen_spec(rng, backend=None, max_n=3):
         sel = None if (rng.random() < 0.35) else _r3(rng.uniform(-1.0, 1.0))
         if backend == "fock" and sel is None:
             sel = _r3(rng.uniform(-1.0, 1.0))  # the fock sampler is slow (100000 bins); post-select only
+        if n >= 2 and rng.random() < 0.7:
+            # correlate the measured mode with another one so that the conditional state depends on the outcome
+            other = rng.choice([x for x in range(n) if x != m])
+            opsl.append({"op": "BSgate", "p": [_r3(rng.uniform(0.4, 1.1)), draw(rng, "a")], "m": [m, other], "dg": False})
         opsl.append({"op": "MeasureHomodyne", "phi": draw(rng, "a"), "select": sel, "m": [m], "dg": False})
         if rng.random() < 0.6:
             opsl.append(gen_op(rng, n, backend))
